@@ -10,32 +10,33 @@ import (
 )
 
 type Obligation struct {
-	Name    string // pkg.Func#kind:label
-	Func    string
-	Kind    string
-	Label   string
-	Tags    []string
-	Assume  []*Term
-	Goal    *Term
-	NDecls  int
-	Src     string
-	PathID  int
-	Where   string
-	Expect  string // "unsat" normally; "sat" for vacuity/canary
-	D       *Decls
-	Note    string
+	Name   string // pkg.Func#kind:label
+	Func   string
+	Kind   string
+	Label  string
+	Tags   []string
+	Assume []*Term
+	Goal   *Term
+	NDecls int
+	Src    string
+	PathID int
+	Where  string
+	Expect string // "unsat" normally; "sat" for vacuity/canary
+	D      *Decls
+	Note   string
 }
 
 type collector struct {
-	header   *ssa.BasicBlock
-	blocks   map[*ssa.BasicBlock]bool
-	depth    int
-	writes   []wrec
-	globals  []modLoc
-	allKeys  map[string]bool // keys havocked entirely
-	ghosts   map[string]bool
-	symMark  int
-	newMark  int
+	header    *ssa.BasicBlock
+	blocks    map[*ssa.BasicBlock]bool
+	depth     int
+	writes    []wrec
+	globals   []modLoc
+	allKeys   map[string]bool // keys havocked entirely
+	ghosts    map[string]bool
+	internals map[string]bool
+	symMark   int
+	newMark   int
 }
 
 type wrec struct {
@@ -44,39 +45,39 @@ type wrec struct {
 }
 
 type Verifier struct {
-	P      *Program
-	C      *Contracts
-	D      *Decls
-	Y      *Syms
-	obls   []*Obligation
-	newCtr int
-	col    *collector
-	notes  map[string]int
-	curFn  string // name of function being verified
-	curCon *Contract
-	pathN  int
-	maxPaths int
-	errs   []string
-	subst  map[string]types.Type
-	globIDs map[string]int
-	safety bool
-	factSeen map[string]bool
-	ftCache map[string]*Contract
-	inlineDepth int
-	wantTags map[string]bool
-	fnByOp map[string]*ssa.Function
-	fnContracts map[*ssa.Function]*Contract
-	callSeq map[string]int
+	P            *Program
+	C            *Contracts
+	D            *Decls
+	Y            *Syms
+	obls         []*Obligation
+	newCtr       int
+	col          *collector
+	notes        map[string]int
+	curFn        string // name of function being verified
+	curCon       *Contract
+	pathN        int
+	maxPaths     int
+	errs         []string
+	subst        map[string]types.Type
+	globIDs      map[string]int
+	safety       bool
+	factSeen     map[string]bool
+	ftCache      map[string]*Contract
+	inlineDepth  int
+	wantTags     map[string]bool
+	fnByOp       map[string]*ssa.Function
+	fnContracts  map[*ssa.Function]*Contract
+	callSeq      map[string]int
 	pendingForks []*State
-	topVars map[string]Val
-	extraPosts []*Contract
-	returns int
-	exactInts bool
-	frameOn bool
-	modset []modLoc
-	curTop *ssa.Function
-	frameGuard *Term
-	localCells []*Term // captured-variable cells of the closure under verification (locals of the enclosing function)
+	topVars      map[string]Val
+	extraPosts   []*Contract
+	returns      int
+	exactInts    bool
+	frameOn      bool
+	modset       []modLoc
+	curTop       *ssa.Function
+	frameGuard   *Term
+	localCells   []*Term // captured-variable cells of the closure under verification (locals of the enclosing function)
 }
 
 func (v *Verifier) note(s string) { v.notes[s]++ }
